@@ -15,19 +15,19 @@ import (
 
 // RunResult is what one execution produced.
 type RunResult struct {
-	Property string      `json:"property"`
-	Seed     int64       `json:"seed"`
-	Cfg      Config      `json:"config"`
-	Intents  []Intent    `json:"intents"`
-	Viol     *Violation  `json:"violation,omitempty"`
+	Property string       `json:"property"`
+	Seed     int64        `json:"seed"`
+	Cfg      Config       `json:"config"`
+	Intents  []Intent     `json:"intents"`
+	Viol     *Violation   `json:"violation,omitempty"`
 	Viols    []*Violation `json:"violations,omitempty"`
-	CrashStr string      `json:"crash,omitempty"`
-	Crash    *hub.Crash  `json:"-"`
-	Stats    *Stats      `json:"stats"`
-	Shape    string      `json:"shape"`
-	NonTriv  bool        `json:"nontrivial"`
-	Log      []string    `json:"-"`
-	Blocks   int64       `json:"blocks"`
+	CrashStr string       `json:"crash,omitempty"`
+	Crash    *hub.Crash   `json:"-"`
+	Stats    *Stats       `json:"stats"`
+	Shape    string       `json:"shape"`
+	NonTriv  bool         `json:"nontrivial"`
+	Log      []string     `json:"-"`
+	Blocks   int64        `json:"blocks"`
 }
 
 // SplitMix64: VERIF_SEED -> per-run seeds.
